@@ -17,10 +17,11 @@ through `Cfg` so that the witnesses of the defects stay checkable):
 
 Scope (see notes/C17.md): one single-inheritance class chain, any number of instances of the most derived
 class; the interface caches are built (the harness warms them up the way `exportObject` does), so the lazy
-binding window of `DBusProperty.__get__/__set__` is not modelled; Python values are the universe `PyVal`.
+binding window of `DBusProperty.__get__/__set__` is not modelled; Python values are the universe `PVal`.
 Core Lean only.
 -/
 import TxdbusModel.Gen.C17Props
+import TxdbusModel.Wire.Code
 
 namespace Txdbus.Obj.Props
 
@@ -42,7 +43,14 @@ def dset {κ α : Type} [DecidableEq κ] : List (κ × α) → κ → α → Lis
 pattern, opaque), `list` of `str`, and instances of marshal's wrapper classes: `wint tag n` an instance of
 the `int` subclass whose `dbusSignature` is `tag` (Byte, Int16, ... , Boolean), `wstr tag s` of the `str`
 subclass (ObjectPath, Signature). -/
-inductive PyVal where
+inductive Scalar where
+  | int (n : Int)
+  | bool (b : Bool)
+  | str (s : Str)
+  | dbl (bits : Nat)
+  deriving DecidableEq, Repr, Inhabited
+
+inductive PVal where
   | none
   | int (n : Int)
   | bool (b : Bool)
@@ -51,19 +59,40 @@ inductive PyVal where
   | strs (l : List Str)
   | wint (tag : Char) (n : Int)
   | wstr (tag : Char) (s : Str)
+  /-- further containers (one level): a `list` / `tuple` of scalars, a `dict` from `str` to scalars, a `list`
+  of lists of `str`.  They are outside the theorems' universe (`wireOk`, `HasType` are false for them); the
+  model handles them by running the shared codec model `Txdbus.Code` (C01/C02) on them, so that properties
+  of container type are covered by the correspondence streams. -/
+  | list (l : List Scalar)
+  | tuple (l : List Scalar)
+  | dict (l : List (Str × Scalar))
+  | lists (l : List (List Str))
   deriving DecidableEq, Repr, Inhabited
 
+def PVal.isContainer : PVal → Bool
+  | .list _ | .tuple _ | .dict _ | .lists _ => true
+  | _ => false
+
 /-- The plain Python value a peer decodes for a wrapper instance (a Boolean decodes as `bool`). -/
-def PyVal.plain : PyVal → PyVal
+def PVal.plain : PVal → PVal
   | .wint tag n => if tag = 'b' then .bool (n ≠ 0) else .int n
   | .wstr _ s => .str s
-  | v => v
+  | .none => .none
+  | .int n => .int n
+  | .bool b => .bool b
+  | .str s => .str s
+  | .dbl b => .dbl b
+  | .strs l => .strs l
+  | .list l => .list l
+  | .tuple l => .tuple l
+  | .dict l => .dict l
+  | .lists l => .lists l
 
 /-- A Python value that may be an instance of one of marshal's wrapper classes (`tag` = its
 `dbusSignature`). -/
 structure Typed where
   tag : Option Char
-  val : PyVal
+  val : PVal
   deriving DecidableEq, Repr
 
 /-- `int(x)` for a float given by its IEEE-754 binary64 pattern: truncation toward zero; NaN (ValueError)
@@ -81,7 +110,7 @@ def dblTrunc (bits : Nat) : Option Int :=
 
 /-- `int(v)` on the generated domain (a `str` argument: non-empty ASCII digits only, anything else is the
 `ValueError` branch). -/
-def pyInt : PyVal → Option Int
+def pyInt : PVal → Option Int
   | .int n => some n
   | .bool b => some (if b then 1 else 0)
   | .str s =>
@@ -103,7 +132,7 @@ def simpleStr (s : Str) : Bool :=
   s.all fun c => 32 ≤ c.toNat ∧ c.toNat < 127 ∧ c ≠ '\'' ∧ c ≠ '"' ∧ c ≠ '\\'
 
 /-- `str(v)` on the generated domain (`float` arguments are not generated; a list only of simple strings). -/
-def pyStr : PyVal → Option Str
+def pyStr : PVal → Option Str
   | .str s => some s
   | .int n => some (if n < 0 then '-' :: natRepr n.natAbs else natRepr n.natAbs)
   | .bool b => some (if b then "True".toList else "False".toList)
@@ -115,11 +144,12 @@ def pyStr : PyVal → Option Str
   | .dbl _ => none
   | .wint _ n => some (if n < 0 then '-' :: natRepr n.natAbs else natRepr n.natAbs)
   | .wstr _ s => some s
+  | _ => none     -- str() of the further containers is not modelled (not generated for 'o' / 'g' slots)
 
 def classOf (c : Char) : Option (String × Char) := dget Gen.C17Props.classMap c
 
 /-- `marshal.variantClassMap[sig](v)` when `sig in marshal.variantClassMap`, else `v` unchanged. -/
-def castClass (sig : Str) (v : PyVal) : Option Typed :=
+def castClass (sig : Str) (v : PVal) : Option Typed :=
   match sig with
   | [c] =>
     match classOf c with
@@ -135,6 +165,93 @@ def castClass (sig : Str) (v : PyVal) : Option Typed :=
         | _ => some ⟨none, v⟩
       else some ⟨none, v⟩
   | _ => some ⟨none, v⟩
+
+/-! ### delegation to the shared codec model for everything outside the 15 modelled signatures -/
+
+def Scalar.toShared : Scalar → Txdbus.PyVal
+  | .int n => .int .plain n
+  | .bool b => .bool b
+  | .str s => .str .plain s
+  | .dbl b => .float (UInt64.ofNat b)
+
+def intClsOf (c : Char) : Txdbus.IntCls :=
+  if c = 'y' then .byte else if c = 'b' then .boolean else if c = 'n' then .int16 else if c = 'q' then .uint16
+  else if c = 'i' then .int32 else if c = 'u' then .uint32 else if c = 'x' then .int64
+  else if c = 't' then .uint64 else .plain
+
+def strClsOf (c : Char) : Txdbus.StrCls :=
+  if c = 'g' then .signature else if c = 'o' then .objectPath else .plain
+
+def PVal.toShared : PVal → Txdbus.PyVal
+  | .none => .none
+  | .int n => .int .plain n
+  | .bool b => .bool b
+  | .str s => .str .plain s
+  | .dbl b => .float (UInt64.ofNat b)
+  | .strs l => .list (l.map fun s => .str .plain s)
+  | .wint c n => .int (intClsOf c) n
+  | .wstr c s => .str (strClsOf c) s
+  | .list l => .list (l.map Scalar.toShared)
+  | .tuple l => .tuple (l.map Scalar.toShared)
+  | .dict l => .dict (l.map fun e => (.str .plain e.1, e.2.toShared))
+  | .lists l => .list (l.map fun x => .list (x.map fun s => .str .plain s))
+
+def scalarOfShared : Txdbus.PyVal → Option Scalar
+  | .int _ n => some (.int n)
+  | .bool b => some (.bool b)
+  | .str _ s => some (.str s)
+  | .float b => some (.dbl b.toNat)
+  | _ => none
+
+def strOfShared : Txdbus.PyVal → Option Str
+  | .str _ s => some s
+  | _ => none
+
+def strsOfShared : Txdbus.PyVal → Option (List Str)
+  | .list xs => xs.mapM strOfShared
+  | _ => none
+
+/-- A decoded value back in the model's universe (`none`: outside it). -/
+def ofShared : Txdbus.PyVal → Option PVal
+  | .int _ n => some (.int n)
+  | .bool b => some (.bool b)
+  | .str _ s => some (.str s)
+  | .float b => some (.dbl b.toNat)
+  | .list xs =>
+    match xs.mapM strOfShared with
+    | some l => some (.strs l)
+    | none =>
+      match xs.mapM scalarOfShared with
+      | some l => some (.list l)
+      | none => (xs.mapM strsOfShared).map .lists
+  | .dict kvs =>
+    (kvs.mapM fun (kv : Txdbus.PyVal × Txdbus.PyVal) => match strOfShared kv.1, scalarOfShared kv.2 with
+      | some k, some v => some (k, v)
+      | _, _ => none).map .dict
+  | _ => none
+
+def extFuel : Nat := 64
+
+/-- `marshal.marshal(sig, [v])` through the shared codec model, then what a peer decodes from the bytes. -/
+def extMarshal (sig : Str) (v : PVal) : Option PVal :=
+  match Txdbus.Code.marshal extFuel sig (.list [v.toShared]) 0 true (some []) with
+  | .ok (_, bytes, _) =>
+    match Txdbus.Code.unmarshal extFuel sig bytes 0 true (some []) with
+    | .ok (_, [w]) => ofShared w
+    | _ => none
+  | .error _ => none
+
+/-- `marshal.marshal(sig, [v])` does not raise (shared codec model). -/
+def extMarshalOk (sig : Str) (v : PVal) : Bool :=
+  match Txdbus.Code.marshal extFuel sig (.list [v.toShared]) 0 true (some []) with
+  | .ok _ => true
+  | .error _ => false
+
+/-- `marshal.sigFromPy` through the shared inference model. -/
+def extSigFromPy (v : PVal) : Option Str :=
+  match Txdbus.sigFromPy v.toShared with
+  | .ok s => some s
+  | .error _ => none
 
 /-- `marshal.sigFromPy` (after the repair of F28): wrapper instances answer their `dbusSignature`. -/
 def sigFromPy (t : Typed) : Option Str :=
@@ -154,6 +271,7 @@ def sigFromPy (t : Typed) : Option Str :=
     | .strs (_ :: _) => some ['a', 's']
     | .wint c _ => some [c]
     | .wstr c _ => some [c]
+    | v => extSigFromPy v
 
 /-- The DBus types the model knows how to marshal (the keys of `marshal.marshallers` it mirrors). -/
 inductive DTy where
@@ -172,6 +290,15 @@ def DTy.render : DTy → Str
   | .y => ['y'] | .n => ['n'] | .q => ['q'] | .i => ['i'] | .u => ['u'] | .x => ['x'] | .t => ['t']
   | .b => ['b'] | .d => ['d'] | .s => ['s'] | .o => ['o'] | .g => ['g'] | .as => ['a', 's']
   | .av => ['a', 'v'] | .v => ['v']
+
+/-- The signatures a property can be declared with inside the theorems' scope: the 12 basic types, `as`, `v`
+(`av` is in `DTy` only because `sigFromPy([])` answers it; as a declared type it is left to the shared codec
+model like every other container type). -/
+def declarable (sig : Str) : Bool :=
+  match DTy.ofSig sig with
+  | some .av => false
+  | some _ => true
+  | none => false
 
 /-- Range accepted by `struct.pack` for the integer formats. -/
 def DTy.intRange : DTy → Option (Int × Int)
@@ -201,7 +328,7 @@ def pathOk (p : Str) : Bool :=
 def noNul (s : Str) : Bool := !s.contains (Char.ofNat 0)
 
 /-- Python truthiness (`1 if var else 0` in `marshal_boolean`). -/
-def truthy : PyVal → Bool
+def truthy : PVal → Bool
   | .none => false
   | .int n => n ≠ 0
   | .bool b => b
@@ -210,12 +337,16 @@ def truthy : PyVal → Bool
   | .strs l => l ≠ []
   | .wint _ n => n ≠ 0
   | .wstr _ s => s ≠ []
+  | .list l => l ≠ []
+  | .tuple l => l ≠ []
+  | .dict l => l ≠ []
+  | .lists l => l ≠ []
 
 /-- One marshaller applied to a value, answering the value a peer decodes (`none`: it raises).
 `struct.pack` accepts a `bool` for the integer formats; a `float` only for 'd' (an `int` for 'd' is never
 reached: inference never picks 'd' for it and the Set check tests the Python type first).  The variant
 marshaller is `encodeVariant` below. -/
-def marshalTy (ty : DTy) (v : PyVal) : Option PyVal :=
+def marshalTy (ty : DTy) (v : PVal) : Option PVal :=
   match ty with
   | .b => some (.bool (truthy v))
   | .d => match v with
@@ -237,8 +368,8 @@ def marshalTy (ty : DTy) (v : PyVal) : Option PyVal :=
     | .strs l => if l.all noNul then some (.strs l) else none
     | _ => none
   | .av => match v with
-    | .strs [] => some (.strs [])
-    | _ => none
+    | .strs [] => some (.strs [])       -- what `sigFromPy([])` leads to
+    | v => extMarshal ['a', 'v'] v
   | .v => none
   | ty =>
     match ty.intRange with
@@ -252,25 +383,27 @@ def marshalTy (ty : DTy) (v : PyVal) : Option PyVal :=
 
 /-- `marshal.marshal(sig, [v])` for the non-variant signatures of the model (`none`: the marshaller
 raises, or the signature is outside the model). -/
-def marshalPlain (sig : Str) (v : PyVal) : Option PyVal :=
-  (DTy.ofSig sig).bind fun ty => marshalTy ty v
+def marshalPlain (sig : Str) (v : PVal) : Option PVal :=
+  match DTy.ofSig sig with
+  | some ty => if v.isContainer then extMarshal sig v else marshalTy ty v
+  | none => extMarshal sig v
 
 /-- `marshal_variant`: the signature is inferred from the Python value, then the value is marshalled
 with it.  Answers (signature carried by the variant, decoded value). -/
-def encodeVariant (t : Typed) : Option (Str × PyVal) :=
+def encodeVariant (t : Typed) : Option (Str × PVal) :=
   (sigFromPy t).bind fun s => (marshalPlain s t.val).map fun w => (s, w)
 
 /-- `marshal.marshal(sig, [v])` including the declared signature 'v'. -/
-def marshalAs (sig : Str) (v : PyVal) : Option PyVal :=
+def marshalAs (sig : Str) (v : PVal) : Option PVal :=
   if sig = ['v'] then (encodeVariant ⟨none, v⟩).map (·.2) else marshalPlain sig v
 
 /-- What Get answers for a stored value: `variantClassMap[sig](v)` if the declared signature is a key of
 the map, then the reply body of signature 'v' is marshalled. -/
-def getReply (sig : Str) (v : PyVal) : Option (Str × PyVal) :=
+def getReply (sig : Str) (v : PVal) : Option (Str × PVal) :=
   (castClass sig v).bind encodeVariant
 
 /-- The Python-type test of the repaired `_dbus_PropertySet` for one-character signatures. -/
-def kindOk (sig : Str) (v : PyVal) : Bool :=
+def kindOk (sig : Str) (v : PVal) : Bool :=
   match sig with
   | [c] =>
     if c = 'v' then true
@@ -280,8 +413,16 @@ def kindOk (sig : Str) (v : PyVal) : Bool :=
     else (match v with | .int _ => true | .wint _ _ => true | _ => false)
   | _ => true
 
+/-- `marshal.marshal(sig, [v])` does not raise (the trial marshalling of the repaired `_dbus_PropertySet`;
+outside the 15 modelled signatures / for the further containers: the shared codec model, where success of the
+marshaller is all that counts - e.g. a `str` is accepted as a dict entry by `zip` truncation). -/
+def marshalOk (sig : Str) (v : PVal) : Bool :=
+  match DTy.ofSig sig with
+  | some _ => if v.isContainer then extMarshalOk sig v else (marshalAs sig v).isSome
+  | none => extMarshalOk sig v
+
 /-- The repaired `_dbus_PropertySet` accepts the value for a property of signature `sig`. -/
-def conforms (sig : Str) (v : PyVal) : Bool := kindOk sig v && (marshalAs sig v).isSome
+def conforms (sig : Str) (v : PVal) : Bool := kindOk sig v && marshalOk sig v
 
 /-! ### Declarations -/
 
@@ -463,7 +604,7 @@ structure St where
   /-- objects registered with a DBusObjectHandler (`exportObject`) -/
   attached : List Nat
   /-- `instance._dbusProperties` of every instance: (instance, key) -> value -/
-  store : List ((Nat × Key) × PyVal)
+  store : List ((Nat × Key) × PVal)
   deriving Repr
 
 def St.init : St := ⟨[], []⟩
@@ -476,13 +617,13 @@ inductive Out where
   /-- empty method return (Set) -/
   | ret
   /-- method return carrying one variant (Get) -/
-  | retV (sig : Str) (w : PyVal)
+  | retV (sig : Str) (w : PVal)
   /-- method return carrying a{sv} (GetAll), in wire order -/
-  | retD (l : List (Str × Str × PyVal))
+  | retD (l : List (Str × Str × PVal))
   /-- error reply -/
   | err (e : ErrCat)
   /-- PropertiesChanged(iface, {pname: variant}, []) emitted by object `o` -/
-  | signal (o : Nat) (iface pname : Str) (sig : Str) (w : PyVal)
+  | signal (o : Nat) (iface pname : Str) (sig : Str) (w : PVal)
   /-- a local statement raised -/
   | raised
   /-- a local statement completed -/
@@ -491,26 +632,26 @@ inductive Out where
 
 inductive Op where
   | export (o : Nat)
-  | assign (o : Nat) (attr : Str) (v : PyVal)
+  | assign (o : Nat) (attr : Str) (v : PVal)
   | get (o : Nat) (iface pname : Str)
-  | set (o : Nat) (iface pname : Str) (v : PyVal)
+  | set (o : Nat) (iface pname : Str) (v : PVal)
   | getAll (o : Nat) (iface : Str)
   deriving DecidableEq, Repr
 
 /-! ### The descriptor -/
 
 /-- `DBusProperty.__get__`: `instance._dbusProperties.get(self.key, None)`. -/
-def descGet (cfg : Cfg) (st : St) (o : Nat) (b : Bound) : PyVal :=
+def descGet (cfg : Cfg) (st : St) (o : Nat) (b : Bound) : PVal :=
   (dget st.store (o, cfg.key b.iface b.pname)).getD .none
 
 /-- `getattr(self, attr)` for a property attribute (`none`: no such descriptor). -/
-def getattrProp (cfg : Cfg) (W : World) (st : St) (o : Nat) (a : Str) : Option PyVal :=
+def getattrProp (cfg : Cfg) (W : World) (st : St) (o : Nat) (a : Str) : Option PVal :=
   (resolveAttr W a).map (descGet cfg st o)
 
 /-- `DBusProperty.__set__`: store, then `emitSignal('PropertiesChanged', iface, {pname: value}, [])` when
 the mode is 'true' (a no-op without an object handler).  The Boolean says whether it raised (the value is
 stored before the signal is built). -/
-def descSet (cfg : Cfg) (st : St) (o : Nat) (b : Bound) (v : PyVal) : St × List Out × Bool :=
+def descSet (cfg : Cfg) (st : St) (o : Nat) (b : Bound) (v : PVal) : St × List Out × Bool :=
   let st' : St := { st with store := dset st.store (o, cfg.key b.iface b.pname) v }
   if b.iprop.emits = .yes ∧ o ∈ st.attached then
     match encodeVariant ⟨none, v⟩ with
@@ -557,7 +698,7 @@ def opGet (cfg : Cfg) (W : World) (st : St) (o : Nat) (i p : Str) : Out :=
         | some (s, w) => .retV s w
         | none => .err .value
 
-def opSet (cfg : Cfg) (W : World) (st : St) (o : Nat) (i p : Str) (v : PyVal) : St × List Out :=
+def opSet (cfg : Cfg) (W : World) (st : St) (o : Nat) (i p : Str) (v : PVal) : St × List Out :=
   match getProperty W i p with
   | none => (st, [.err .unknownProp])
   | some b =>
